@@ -3927,7 +3927,11 @@ class OptionalNode(ActionSinkNode):
             end_dfa.add(end_state)
             end_dfa.mark_accepting(end_state)
             end_start.transition(DFTransition([DFTransition.Else], fallthrough=True).to(end_state).handles_else())
-            sub_dfa.append_after(end_dfa, chain_actions=self.finish_actions)
+            # (the other accepting states keep the usual treatment, including the refusal to schedule timing-strict actions
+            # after something that can still continue)
+            self_start = sub_dfa.starting_state
+            sub_dfa.chain_actions_into(self.finish_actions, [x for x in sub_dfa.accepting_states if x is not self_start])
+            sub_dfa.append_after(end_dfa, sub_states=[self_start], chain_actions=self.finish_actions)
 
         return sub_dfa
 
